@@ -327,16 +327,38 @@ hist:
 			}
 			var opts []*codectypes.Any
 			route := "cosmos"
-			if rng.Intn(2) == 0 {
-				o, _ := codectypes.NewAnyWithValue(&haqqtypes.ExtensionOptionDynamicFeeTx{MaxPriorityPrice: sdkmath.NewInt(int64(rng.Intn(100)))})
-				opts, route = []*codectypes.Any{o}, "cosmos+dynamic-fee"
-			}
-			seq := n.Seq(a.Addr)
 			feeCoins := sdk.Coins{}
 			if fee.IsPositive() {
 				feeCoins = sdk.NewCoins(sdk.NewCoin(vn.Denom, fee))
 			}
-			res := n.Deliver(n.CosmosTx(vn.CosmosArgs{Msgs: []sdk.Msg{banktypes.NewMsgSend(a.Addr, n.Accounts[4].Addr, vn.Coins(1))}, Gas: gas, Fee: feeCoins, ExtOpts: opts}, a))
+			msgs := []sdk.Msg{banktypes.NewMsgSend(a.Addr, n.Accounts[4].Addr, vn.Coins(1))}
+			var txBytes []byte
+			switch rng.Intn(5) {
+			case 0:
+				o, _ := codectypes.NewAnyWithValue(&haqqtypes.ExtensionOptionDynamicFeeTx{MaxPriorityPrice: sdkmath.NewInt(int64(rng.Intn(100)))})
+				opts, route = []*codectypes.Any{o}, "cosmos+dynamic-fee"
+			case 1, 2: // signed as EIP-712 typed data, carried with the Web3 extension option (its own ante chain)
+				route = "web3tx-eip712"
+				bz, err := n.EIP712Tx(a, msgs, gas, feeCoins, true, rng.Intn(2) == 0, nil)
+				if err != nil {
+					r.Count("eip712_build_errors", 1)
+					continue
+				}
+				txBytes = bz
+			case 3: // signed as EIP-712 typed data in the ordinary signature slot
+				route = "eip712-sign-mode"
+				bz, err := n.EIP712Tx(a, msgs, gas, feeCoins, false, rng.Intn(2) == 0, nil)
+				if err != nil {
+					r.Count("eip712_build_errors", 1)
+					continue
+				}
+				txBytes = bz
+			}
+			if txBytes == nil {
+				txBytes = n.CosmosTx(vn.CosmosArgs{Msgs: msgs, Gas: gas, Fee: feeCoins, ExtOpts: opts}, a)
+			}
+			seq := n.Seq(a.Addr)
+			res := n.Deliver(txBytes)
 			passed := n.Seq(a.Addr) > seq
 			side := map[int64]string{-1: "floor-1", 0: "floor", 1: "floor+1"}[off]
 			below := fee.LT(req)
